@@ -722,6 +722,13 @@ class AsyncFIXConnection:
         """
         assert seqreset_msg.msg_type == FMsg.SEQUENCERESET
 
+        try:
+            int(seqreset_msg.get(FTag.NewSeqNo, None))
+        except (TypeError, ValueError):
+            # Garbled message (no NewSeqNo to move to), sequence must stay untouched
+            self.log.warning(f"SequenceReset without valid NewSeqNo: {seqreset_msg}")
+            return False
+
         if seqreset_msg.get(FTag.GapFillFlag, None) == "Y":
             if self._connection_state != ConnectionState.RESENDREQ_AWAITING:
                 self.log.warning(
